@@ -93,6 +93,8 @@ type VersionedFetcher struct {
 	store datastore.Txn
 
 	queuedCids *list.List
+	// mergedCids contains the CIDs of the blocks that have been merged into the transient store.
+	mergedCids map[cid.Cid]struct{}
 
 	documentACP immutable.Option[dac.DocumentACP]
 
@@ -225,6 +227,7 @@ func (vf *VersionedFetcher) SeekTo(ctx context.Context, c cid.Cid) error {
 func (vf *VersionedFetcher) seekTo(c cid.Cid) error {
 	// reinit the queued cids list
 	vf.queuedCids = list.New()
+	vf.mergedCids = make(map[cid.Cid]struct{})
 
 	// recursive step through the graph
 	err := vf.seekNext(c, true)
@@ -309,9 +312,9 @@ func (vf *VersionedFetcher) seekNext(c cid.Cid, topParent bool) error {
 		return NewErrVFetcherFailedToDecodeNode(err)
 	}
 
-	// only seekNext on parent if we have a HEAD link
-	if len(block.Heads) != 0 {
-		err := vf.seekNext(block.Heads[0].Cid, true)
+	// seekNext on every parent so that all the branches of the history are included
+	for _, head := range block.Heads {
+		err := vf.seekNext(head.Cid, true)
 		if err != nil {
 			return err
 		}
@@ -337,6 +340,12 @@ func (vf *VersionedFetcher) seekNext(c cid.Cid, topParent bool) error {
 //
 // Currently we assume the CID is a CompositeDAG CRDT node.
 func (vf *VersionedFetcher) merge(c cid.Cid) error {
+	if _, ok := vf.mergedCids[c]; ok {
+		// A block can be reached via several paths, it must only be merged once.
+		return nil
+	}
+	vf.mergedCids[c] = struct{}{}
+
 	// get node
 	block, err := vf.getDAGBlock(c)
 	if err != nil {
